@@ -28,6 +28,7 @@ type c11Req struct {
 	Body    string      `json:"body,omitempty"`
 	Form    [][2]string `json:"form,omitempty"`
 	Chunked bool        `json:"chunked,omitempty"`
+	First   string      `json:"handler_first_touches,omitempty"` // what the handler looks at before anything else: "" | header-string | copyto | multipart
 	ctype   string
 	wire    []byte
 }
@@ -98,7 +99,11 @@ func genC11Req(e *Env, id string) c11Req {
 		r.Method = "POST"
 		r.Body = "body-" + id
 		r.ctype = "text/x-" + id
+		if e.Chance(35) {
+			r.Body = "" // an expectation on a request that declares an empty body is still an expectation
+		}
 	}
+	r.First = Pick(e, "", "", "header-string", "copyto", "multipart")
 	// wire form
 	var b bytes.Buffer
 	target := "/id-" + id
@@ -210,6 +215,42 @@ func c11Run(e *Env, p *c11Plan) {
 		bad := func(field, got, want string) {
 			e.Violation("leak/request-"+field, "request %s (%s): handler sees %s = %q, the client sent %q", id, r.Kind, field, clip(got, 300), clip(want, 300))
 		}
+		// ---- lazily maintained state: look at a derived view before any accessor ----
+		ownVals := func(what, dump string) {
+			// every value that names a request must name this one
+			for _, f := range strings.FieldsFunc(dump, func(c rune) bool { return c == '\n' || c == '\r' || c == ';' || c == ' ' || c == '&' }) {
+				for _, pre := range []string{"ck-", "h-", "ua-", "fv-", "mv-", "body-"} {
+					if i := strings.Index(f, pre); i >= 0 {
+						rest := f[i+len(pre):]
+						if !strings.HasPrefix(rest, id) && !strings.HasPrefix(rest, "id-"+id) {
+							bad(what, f, "values of request "+id+" only")
+							return
+						}
+					}
+				}
+			}
+		}
+		switch r.First {
+		case "header-string":
+			ownVals("header-string", ctx.Request.Header.String())
+		case "copyto":
+			var cp fasthttp.Request
+			ctx.Request.CopyTo(&cp)
+			ownVals("copy", cp.Header.String())
+			var ck2 [][2]string
+			for kk, v := range cp.Header.Cookies() {
+				ck2 = append(ck2, [2]string{string(kk), string(v)})
+			}
+			if kvList(ck2) != kvList(r.Cookies) {
+				bad("copy-cookies", kvList(ck2), kvList(r.Cookies))
+			}
+		case "multipart":
+			if r.Kind != "multipart" {
+				if f, err := ctx.MultipartForm(); err == nil {
+					bad("multipart-form", fmt.Sprint(f.Value), "no multipart form (the request is not multipart)")
+				}
+			}
+		}
 		// ---- request snapshot vs what was sent ----
 		if string(ctx.Method()) != r.Method {
 			bad("method", string(ctx.Method()), r.Method)
@@ -275,6 +316,9 @@ func c11Run(e *Env, p *c11Plan) {
 		default:
 			if got := string(ctx.PostBody()); got != r.Body {
 				bad("body", got, r.Body)
+			}
+			if f, err := ctx.MultipartForm(); err == nil {
+				bad("multipart-form", fmt.Sprint(f.Value), "no multipart form (the request is not multipart)")
 			}
 			var pa [][2]string
 			for kk, v := range ctx.PostArgs().All() {
